@@ -159,3 +159,67 @@ func mutate(r *gen.Rand, text []byte) ([]byte, string) {
 	}
 	return out, strings.Join(ops, ";")
 }
+
+// mutateRecords applies 1..2 record-level mutations: delete, duplicate, swap or
+// move a record, cut the text short, splice in a record of another kind.
+func mutateRecords(r *gen.Rand, text []byte) ([]byte, string) {
+	s := strings.ReplaceAll(strings.ReplaceAll(string(text), "\r\n", "\n"), "\r", "\n")
+	lines := strings.Split(strings.TrimRight(s, "\n"), "\n")
+	var ops []string
+	n := r.Range(1, 2)
+	for k := 0; k < n && len(lines) > 1; k++ {
+		i := r.Intn(len(lines))
+		switch r.Intn(8) {
+		case 0:
+			ops = append(ops, fmt.Sprintf("del-line@%d", i))
+			lines = append(lines[:i:i], lines[i+1:]...)
+		case 1:
+			ops = append(ops, fmt.Sprintf("dup-line@%d", i))
+			lines = append(lines[:i+1:i+1], lines[i:]...)
+		case 2:
+			j := r.Intn(len(lines))
+			ops = append(ops, fmt.Sprintf("swap-lines@%d,%d", i, j))
+			lines[i], lines[j] = lines[j], lines[i]
+		case 3:
+			j := r.Intn(len(lines))
+			ops = append(ops, fmt.Sprintf("move-line@%d->%d", i, j))
+			l := lines[i]
+			lines = append(lines[:i:i], lines[i+1:]...)
+			if j > len(lines) {
+				j = len(lines)
+			}
+			lines = append(lines[:j:j], append([]string{l}, lines[j:]...)...)
+		case 4:
+			ops = append(ops, fmt.Sprintf("cut-after-line@%d", i))
+			lines = lines[:i+1]
+		case 5:
+			// drop every filler record
+			var keep []string
+			for _, l := range lines {
+				if strings.Trim(l, "9") != "" {
+					keep = append(keep, l)
+				}
+			}
+			if len(keep) > 0 {
+				lines = keep
+			}
+			ops = append(ops, "drop-filler")
+		case 6:
+			// change the record type character
+			if lines[i] != "" {
+				c := "156789"[r.Intn(6)]
+				ops = append(ops, fmt.Sprintf("type@%d=%c", i, c))
+				lines[i] = string(c) + lines[i][1:]
+			}
+		case 7:
+			// cut the whole text short at a byte
+			joined := strings.Join(lines, "\n") + "\n"
+			p := r.Intn(len(joined))
+			ops = append(ops, fmt.Sprintf("truncate@%d", p))
+			return []byte(joined[:p]), strings.Join(ops, ";")
+		}
+	}
+	sep := gen.Pick(r, []string{"\n", "\r\n"})
+	ops = append(ops, fmt.Sprintf("eol=%q", sep))
+	return []byte(strings.Join(lines, sep) + sep), strings.Join(ops, ";")
+}
